@@ -144,7 +144,7 @@ def _perm_events(args):
                 recs = list(parse_genbank(io.StringIO(text), gbk_type=GenBankParserType.LOCUS_TAG))
                 projs.append(_project(recs[0].annotation.to_annotation_collection()))
             except Exception as ex:
-                projs.append(["x", type(ex).__name__])
+                projs.append(["x", E.exc_name(ex)])
         ev.append(["perm", projs, len(feats)])
     return ev
 
